@@ -1267,6 +1267,14 @@ func main() {
 	writeIfChanged(filepath.Join(*out, "GenFrameSites.v"), w.Bytes())
 	fmt.Printf("go2v: GenFrameSites.v %d NewFrame sites, %d FramePool implementations\n", nfs, nfp)
 
+	// GenFrameUse.v (C12): uses of a frame relative to its hand-over, per function (frameuse.go)
+	w.Reset()
+	fmt.Fprintf(&w, header, *repo)
+	fmt.Fprintf(&w, "From Verif Require Import Spec.FrameUseSpec.\n\n")
+	nfu, nfx := root.frameUseSafe(&w, *repo)
+	writeIfChanged(filepath.Join(*out, "GenFrameUse.v"), w.Bytes())
+	fmt.Printf("go2v: GenFrameUse.v %d frame-use rows, %d hand-over sites\n", nfu, nfx)
+
 	// GenTypedBuf.v, GenMessages.v ...: byte-buffer methods and message codecs (methods.go)
 	emitMethodFiles(all, *repo, *out)
 }
